@@ -499,6 +499,13 @@ func foreignStream(c *common.Ctx, do func(cs caseT) rep, big bool) {
 		cs.Slow = true
 		v3cases = append(v3cases, cs)
 	}
+	if big {
+		// the shape of known finding stack-overflow:pkg/arrai.EvaluateBundle, so that every thorough run shows it: a property
+		// that is allOf of an inline object and of the schema that contains it (about 30 s until the 64 MB stack is exhausted)
+		doc := "openapi: \"3.0.0\"\ninfo: {title: t, version: \"1\"}\npaths: {}\ncomponents:\n  schemas:\n    C:\n      type: object\n      properties:\n        p4:\n          allOf:\n            - type: object\n              properties:\n                q:\n                  type: string\n            - $ref: \"#/components/schemas/C\"\n"
+		v3cases = append(v3cases, caseT{Stream: "foreign-cycle", Slow: true, Root: "root.sysl", Note: "an OpenAPI 3 document whose property is allOf of an inline object and of the enclosing schema",
+			Files: map[string]string{"api.yaml": doc, "root.sysl": "import api.yaml as Foo :: Api ~openapi3\nApp:\n    ...\n"}})
+	}
 	v3done := make(chan []v3res, 1)
 	go func() {
 		w3 := common.NewWorker()
